@@ -436,11 +436,14 @@ theorem fromEntriesOut_ok {recs : List (Nat × IndexData)} {tag : Nat} {h : Head
 clock reading and the two digests, and the compressor's output -/
 theorem prepareData_ok {E : Env} {c : Cfg} {fes : List (FileE × Bytes)} {r : Lead × Header × Bytes}
     (h : prepareData E c fes = .ok r) :
-    ∃ now archive, (Timestamp.now E.clock).toOut = .ok now ∧ E.finish archive = .ok r.2.2 ∧
+    ∃ now archive, (Timestamp.now E.clock).toOut = .ok now ∧ prepareArchive E c fes = some archive ∧ E.finish archive = .ok r.2.2 ∧
       r = (leadNew c.name, mainHeader c now (E.hex r.2.2) (E.hex archive), r.2.2) := by
   unfold prepareData at h
   simp only [Out.bind_eq_ok] at h
-  obtain ⟨_, _, combined, _, s1, _, s2, _, h⟩ := h
+  obtain ⟨_, _, combined, hsum, s1, hs1, s2, hs2, h⟩ := h
+  have harch : prepareArchive E c fes = some s2.out := by
+    unfold prepareArchive
+    rw [hsum]; simp only [hs1, hs2]
   split at h
   · cases h
   · simp only [Out.bind_eq_ok] at h
@@ -449,7 +452,7 @@ theorem prepareData_ok {E : Env} {c : Cfg} {fes : List (FileE × Bytes)} {r : Le
     · cases h
     · simp only [Out.bind_eq_ok, Out.pure_eq, Out.ok.injEq] at h
       obtain ⟨payload, hfin, hdr, hh, rfl⟩ := h
-      exact ⟨now, s2.out, hnow, hfin, by rw [fromEntriesOut_ok hh]; rfl⟩
+      exact ⟨now, s2.out, hnow, harch, hfin, by rw [fromEntriesOut_ok hh]; rfl⟩
 
 /-- `SignatureHeaderBuilder::build` without signatures cannot fail -/
 theorem sigBuild_nil (pubAlg : Bytes → Option Nat) (b64 : Bytes → Bytes) (d : Option Bytes) :
@@ -458,19 +461,129 @@ theorem sigBuild_nil (pubAlg : Bytes → Option Nat) (b64 : Bytes → Bytes) (d 
 /-- **an `Ok` of `build()` is the package of the total model `Bld.build`** for the clock reading, the archive the compressor
 accepted and the payload it returned -/
 theorem build_ok {E : Env} {c : Cfg} {fes : List (FileE × Bytes)} {p : Package} (h : build E c fes = .ok p) :
-    ∃ now archive, (Timestamp.now E.clock).toOut = .ok now ∧ E.finish archive = .ok p.content ∧
-      p = Bld.build c now E.hex archive p.content := by
+    ∃ now archive, (Timestamp.now E.clock).toOut = .ok now ∧ prepareArchive E c fes = some archive ∧
+      E.finish archive = .ok p.content ∧ p = Bld.build c now E.hex archive p.content := by
   unfold build at h
   simp only [Out.bind_eq_ok, Prod.exists] at h
   obtain ⟨lead, hdr, payload, hp, sig, hsig, h⟩ := h
-  obtain ⟨now, archive, hnow, hfin, hr⟩ := prepareData_ok hp
+  obtain ⟨now, archive, hnow, harch, hfin, hr⟩ := prepareData_ok hp
   rw [sigBuild_nil] at hsig
   cases hsig
   simp only [Out.pure_eq, Out.ok.injEq] at h
   subst h
   simp only [Prod.mk.injEq] at hr
   obtain ⟨rfl, rfl, _⟩ := hr
-  exact ⟨now, archive, hnow, hfin, rfl⟩
+  exact ⟨now, archive, hnow, harch, hfin, rfl⟩
+
+/-! ## the archive against C07's models -/
+section archive
+open RpmVerif.Cpio
+
+/-- an all-accepting compressor: every `write` takes everything, `flush` succeeds -/
+def Sink.Accepting (s : Sink) : Prop := s.script = [] ∧ s.flushFails = false
+
+/-- the builder's files as the cpio layer sees them: key, mode word, content -/
+def toFileIn (p : FileE × Bytes) : FileIn := ⟨p.1.cpioPath, p.1.mode, p.2⟩
+
+theorem entryW_accepting (m : EntryMeta) (content : Bytes) (s : Sink) (hc : content.length < 4294967296) (ha : Sink.Accepting s) :
+    entryW m content s = (.ok (), { s with out := s.out ++ writeEntry m content }) := by
+  obtain ⟨h1, h2, h3, h4⟩ := entryW_spec m content s hc
+  have hok := h3 ha.1 ha.2
+  rcases h4 with ⟨_, hout⟩ | h | h
+  · have := sink_eta (entryW m content s).2 s _ hout h1 h2 ha.1
+    exact Prod.ext hok this
+  · rw [hok] at h; cases h
+  · rw [hok] at h; cases h
+
+theorem trailerW_accepting (s : Sink) (ha : Sink.Accepting s) : trailerW s = (.ok (), { s with out := s.out ++ trailer }) := by
+  obtain ⟨h1, h2, h3, h4⟩ := trailerW_spec s
+  have hok := h3 ha.1 ha.2
+  rcases h4 with ⟨_, hout⟩ | h | h
+  · exact Prod.ext hok (sink_eta (trailerW s).2 s _ hout h1 h2 ha.1)
+  · rw [hok] at h; cases h
+  · rw [hok] at h; cases h
+
+theorem accepting_out (s : Sink) (o : Bytes) (ha : Sink.Accepting s) : Sink.Accepting { s with out := o } := ha
+
+theorem strippedW_accepting (idx : Nat) (content : Bytes) (s : Sink) (hi : idx < 4294967296) (ha : Sink.Accepting s) :
+    strippedW idx content s = (.ok (), { s with out := s.out ++ (strippedHeader idx ++ (content ++ strippedDataPad content.length)) }) := by
+  unfold strippedW
+  rw [Nat.mod_eq_of_lt hi]
+  rw [(Sink.writeAll_spec s _).2.2.1 ha.1]
+  simp only
+  rw [(Sink.writeAll_spec { s with out := s.out ++ strippedHeader idx } content).2.2.1 ha.1]
+  simp only
+  rw [(Sink.writeAll_spec { s with out := s.out ++ strippedHeader idx ++ content } (strippedDataPad content.length)).2.2.1 ha.1]
+  simp only [Sink.flush, ha.2, Bool.false_eq_true, if_false, List.append_assoc]
+
+/-- **the file loop of `prepare_data` into an all-accepting compressor writes exactly the entries of C07's archive models**:
+standard form `Cpio.builderEntriesFrom` (inode numbers from `ino`), large form `Cpio.archiveStrippedFrom` (indices from `idx`) -/
+theorem fileLoop_accepting (dirs : List Bytes) (large : Bool) (fes : List (FileE × Bytes)) (idx ino : Nat) (s : Sink)
+    (hd : ∀ p ∈ fes, p.1.dir ∈ dirs) (hc : large = false → ∀ p ∈ fes, p.2.length < 4294967296)
+    (hn : ino + fes.length < 4294967296) (hi : idx + fes.length ≤ 4294967296) (ha : Sink.Accepting s) :
+    ∃ bytes, fileLoop dirs large fes idx ino s = (.ok (), { s with out := s.out ++ bytes }) ∧
+      (large = false → bytes ++ trailer = archiveOf (builderEntriesFrom 0 0 ino (fes.map toFileIn))) ∧
+      (large = true → bytes ++ trailer = archiveStrippedFrom idx ((fes.map toFileIn).map (·.content))) := by
+  induction fes generalizing idx ino s with
+  | nil => exact ⟨[], by simp [fileLoop], fun _ => by simp [archiveOf, builderEntriesFrom], fun _ => by simp [archiveStrippedFrom]⟩
+  | cons p r ih =>
+    obtain ⟨e, content⟩ := p
+    have hmem : dirs.contains e.dir = true := List.contains_iff_mem.mpr (hd (e, content) (List.mem_cons_self ..))
+    have hlt : ino + 1 < 4294967296 := by simp only [List.length_cons] at hn; omega
+    cases large with
+    | false =>
+      have hw := entryW_accepting (builderMeta 0 0 ino ⟨e.cpioPath, e.mode, content⟩) content s
+        (hc rfl (e, content) (List.mem_cons_self ..)) ha
+      obtain ⟨bytes, h1, h2, _⟩ := ih (idx + 1) (ino + 1) { s with out := s.out ++ writeEntry (builderMeta 0 0 ino ⟨e.cpioPath, e.mode, content⟩) content }
+        (fun q hq => hd q (List.mem_cons_of_mem _ hq)) (fun hl q hq => hc hl q (List.mem_cons_of_mem _ hq))
+        (by simp only [List.length_cons] at hn; omega) (by simp only [List.length_cons] at hi; omega) ha
+      refine ⟨writeEntry (builderMeta 0 0 ino ⟨e.cpioPath, e.mode, content⟩) content ++ bytes, ?_, (fun _ => ?_), (fun h => by cases h)⟩
+      · simp only [fileLoop, hmem, Bool.not_true, Bool.false_eq_true, if_false, hw, if_pos hlt, h1, List.append_assoc]
+      · simp only [List.map_cons, builderEntriesFrom, archiveOf, toFileIn, List.append_assoc]
+        rw [h2 rfl]
+    | true =>
+      have hw := strippedW_accepting idx content s (by simp only [List.length_cons] at hi; omega) ha
+      obtain ⟨bytes, h1, _, h3⟩ := ih (idx + 1) (ino + 1)
+        { s with out := s.out ++ (strippedHeader idx ++ (content ++ strippedDataPad content.length)) }
+        (fun q hq => hd q (List.mem_cons_of_mem _ hq)) (fun hl => by cases hl)
+        (by simp only [List.length_cons] at hn; omega) (by simp only [List.length_cons] at hi; omega) ha
+      refine ⟨(strippedHeader idx ++ (content ++ strippedDataPad content.length)) ++ bytes, ?_, (fun h => by cases h), (fun _ => ?_)⟩
+      · simp only [fileLoop, hmem, Bool.not_true, Bool.false_eq_true, if_false, if_true, hw, if_pos hlt, h1, List.append_assoc]
+      · simp only [List.map_cons, archiveStrippedFrom, toFileIn, List.append_assoc]
+        rw [← h3 rfl]
+
+/-- **the archive `prepare_data` hands to an all-accepting compressor is the archive of C07 / C09's models**: `Cpio.builderArchive`
+(uid = gid = 0, inode numbers from 1) without the large-file format, `Cpio.builderArchiveLarge` with it — for a state whose
+directories are registered and whose sizes are the content lengths (every state `Build.run` makes) -/
+theorem prepareArchive_accepting (E : Env) (c : Cfg) (fes : List (FileE × Bytes)) (ha : Sink.Accepting E.sink) (ho : E.sink.out = [])
+    (hd : ∀ p ∈ fes, p.1.dir ∈ c.directories) (hs : ∀ p ∈ fes, p.1.size = p.2.length)
+    (hmem : (fes.map (·.2.length)).sum < 18446744073709551616) (hcount : fes.length < 4294967295)
+    (hthr : c.largeFileThreshold ≤ 4294967295) :
+    prepareArchive E c fes = some (if (fes.map (·.2.length)).sum > c.largeFileThreshold then builderArchiveLarge (fes.map toFileIn)
+      else builderArchive 0 0 (fes.map toFileIn)) := by
+  have hsum : (fes.map (·.1.size)).sum = (fes.map (·.2.length)).sum := sum_map_congr fes _ _ hs
+  unfold prepareArchive
+  rcases sumU64_spec (fes.map (·.1.size)) 0 (by decide) with ⟨_, hsu⟩ | ⟨hge, _⟩
+  · rw [hsu]
+    simp only [Nat.zero_add, hsum]
+    have hsmall : decide ((fes.map (·.2.length)).sum > c.largeFileThreshold) = false → ∀ p ∈ fes, p.2.length < 4294967296 := by
+      intro hl p hp
+      have hle : ¬ (fes.map (·.2.length)).sum > c.largeFileThreshold := by simpa using hl
+      have := sum_le_of_mem (List.mem_map_of_mem (f := fun q : FileE × Bytes => q.2.length) hp)
+      omega
+    obtain ⟨bytes, h1, h2, h3⟩ := fileLoop_accepting c.directories (decide ((fes.map (·.2.length)).sum > c.largeFileThreshold)) fes 0 1 E.sink
+      hd hsmall (by omega) (by omega) ha
+    rw [h1]
+    simp only [seqS]
+    rw [trailerW_accepting _ (accepting_out _ _ ha)]
+    simp only [seqS, ho, List.nil_append]
+    by_cases hl : (fes.map (·.2.length)).sum > c.largeFileThreshold
+    · rw [if_pos hl, h3 (by simpa using hl)]; rfl
+    · rw [if_neg hl, h2 (by simpa using hl)]; rfl
+  · rw [hsum] at hge; omega
+
+
+end archive
 
 theorem build_not_panic (E : Env) (c : Cfg) (fes : List (FileE × Bytes)) (hq : E.Quiet) (hclock : E.ClockOk)
     (hd : ∀ p ∈ fes, p.1.dir ∈ c.directories) (hs : ∀ p ∈ fes, p.1.size = p.2.length)
